@@ -26,7 +26,8 @@ class watchdog(object):  # pylint: disable=invalid-name
 
     def __exit__(self, *exc):
         signal.setitimer(signal.ITIMER_REAL, 0)
-        signal.signal(signal.SIGALRM, self._old)
+        # a handler installed from C (libFuzzer) reads back as None and cannot be put back from Python
+        signal.signal(signal.SIGALRM, self._old if self._old is not None else signal.SIG_DFL)
         return False
 
 
